@@ -801,6 +801,10 @@ func (db *DB) buildSortedSetIdx(bucket string, r *Record) error {
 		db.SortedSetIdx[bucket] = zset.New()
 	}
 
+	if r.E == nil {
+		return ErrEntryIdxModeOpt
+	}
+
 	if r.H.meta.Flag == DataZAddFlag {
 		keyAndScore := strings.Split(string(r.E.Key), SeparatorForZSetKey)
 		if len(keyAndScore) == 2 {
